@@ -37,7 +37,11 @@ class NarwhalsMaterializer(FormulaMaterializer):
     @override
     @classmethod
     def SUPPORTS_INPUT(cls, data: Any) -> bool:
-        return nw.dependencies.is_into_dataframe(data)
+        # narwhals' own frames (of any API version) are accepted as well; only
+        # the stable-v1 frame is findable by its registered type name.
+        return nw.dependencies.is_into_dataframe(
+            data
+        ) or nw.dependencies.is_narwhals_dataframe(data)
 
     @override
     def _init(self) -> None:
